@@ -246,6 +246,7 @@ class PixCoord:
         cosa, sina = np.cos(angle), np.sin(angle)
         rotation_matrix = np.array([[cosa, -sina], [sina, cosa]])
 
-        vec = np.matmul(rotation_matrix, vec)
+        # (not np.matmul, which would treat an N-D vec as a stack of matrices)
+        vec = np.tensordot(rotation_matrix, vec, axes=1)
 
         return self.__class__(center.x + vec[0], center.y + vec[1])
